@@ -30,6 +30,7 @@ class Entry:
     def __init__(self, name, group, kinds, dtypes, build, inplace, out, tenalg):
         self.name, self.group, self.kinds, self.dtypes = name, group, tuple(kinds), tuple(dtypes)
         self.build, self.inplace, self.out, self.tenalg = build, inplace or {}, list(out or []), tenalg
+        self.key = name.split("#")[0]      # the API entry the specs' tables are keyed by ("x#variant" = more argument forms of x)
 
 
 class Call:
@@ -37,6 +38,11 @@ class Call:
         self.fn, self.args, self.kwargs = fn, list(args), dict(kwargs)
         self.opt = ""           # option string the spec's exemption table is keyed on (e.g. "copy=False")
         self.expect = "return"  # informational: "raise" for the deliberately invalid variants
+        self.forms = []         # argument forms of mode numbers / per-mode options (vocabulary: Ownership.tla ArgForms)
+
+    def form(self, *names):
+        self.forms += list(names)
+        return self
 
     def option(self, opt):
         self.opt = opt
@@ -54,7 +60,12 @@ def entry(name, kinds=ARR, dtypes=FLOATS, inplace=None, out=None, tenalg=False):
         ks = list(kinds)
         if tenalg:      # tenalg entries run under both tenalg backends
             ks = ks + [k + "@einsum" for k in kinds]
-        ENTRIES[name] = Entry(name, group, ks, dtypes, f, inplace, out, tenalg)
+        inp, outs = inplace, out
+        if "#" in name:                     # a variant inherits the declarations of its API entry
+            base = ENTRIES[name.split("#")[0]]
+            inp = base.inplace if inplace is None else inplace
+            outs = base.out if out is None else out
+        ENTRIES[name] = Entry(name, group, ks, dtypes, f, inp, outs, tenalg)
         return f
     return deco
 
@@ -230,6 +241,7 @@ def akind(kind):
 
 from . import lib_entries_algebra      # noqa: E402,F401  (registers base / tenalg / factorised tensors)
 from . import lib_entries_decomp       # noqa: E402,F401  (registers decompositions / solvers / metrics / ...)
+from . import lib_entries_modes        # noqa: E402,F401  (registers the forms of mode numbers / per-mode options)
 
 
 # ----------------------------------------------------------------------------- enumeration
@@ -247,7 +259,7 @@ REGIME_SKIP = set()
 
 def regime_kinds(e):
     out = []
-    if e.group not in REGIME_GROUPS:
+    if e.group not in REGIME_GROUPS or "#" in e.name:     # argument-form variants run on regular data only
         return out
     for kind in (e.kinds[0],) + REGIME_EXTRA_KINDS.get(e.name, ()):
         for r in REGIMES:
